@@ -225,8 +225,10 @@ class Ref:
             omit = node.get('omit') == ''
             if not omit:
                 out.append('<' + node['tag'])
+                targeted = [a.lower() for a, _ in node.get('attributes', []) if a]
                 for n, val in node.get('static', []):
-                    if '${' not in val:
+                    # static attributes only: not interpolated, not a target of tal:attributes
+                    if isinstance(val, str) and n.lower() not in targeted:
                         out.append(' %s="%s"' % (n, val))
                 out.append('>')
             out.append(self.to_text(v if mode != 'structure' else Structure(v), True))
